@@ -48,6 +48,8 @@ def delegations(c, r):
         "keys_not_list": {"root": {"pubkeys": r.choice([{KA: 1}, KA, None, (KA,)] if False else [{KA: 1}, KA, None]), "threshold": 1}},
         "key_upper": keys([KA.upper() if KA.upper() != KA else "AB" * 32]), "key_short": keys([KA[:-2]]), "key_long": keys([KA + "00"]),
         "key_dup": keys([KA, KB, KA]), "key_nonstr": keys([r.choice([5, None, [KA], b"ab".hex() and 1.5])]), "key_ws": keys([r.choice([" " + KA[1:], KA[:-1] + "\n", KA[:32] + " " + KA[33:]])]),
+        "key_nonascii_digits": keys([KA.translate({ord("0") + i: r.choice([0x0660, 0xFF10, 0x0966]) + i for i in range(10)}) if any(ch.isdigit() for ch in KA)
+                                     else "\u0661\uff12" * 32]),
         "thr_zero": thr(0), "thr_neg": thr(-1), "thr_frac": thr(1.5), "thr_str": thr("1"), "thr_null": thr(None), "thr_inf": thr(float("inf")),
         "thr_nan": thr(float("nan")), "thr_list": thr([1]), "thr_bool": thr(True), "thr_intfloat": thr(1.0),
         "role_empty": {"": {"pubkeys": [KA], "threshold": 1}},
